@@ -297,3 +297,33 @@ def find_helper(w, cls, query_func, form, pos, ili=None):
                  for p, fs in proposals.items()
                  for data in query_func(forms=[normalize(f) for f in fs], pos=p, normalized=True, **scope)]
     return unique(found)
+
+
+# ---- C08 / C12: construction of a Wordnet -----------------------------------------------------------------------
+
+def Wordnet_init(self, lexicon=None, *, lang=None, expand=None, normalizer=None, lemmatizer=None,
+                 search_all_forms=True):
+    import warnings
+    from wn._util import format_lexicon_specifier
+    # default mode: neither a lexicon specifier nor a language
+    self._default_mode = (not lexicon and not lang)
+    self._lexicons = tuple(_to_lexicon(row) for row in find_lexicons(lexicon or '*', lang=lang))
+    self._lexicon_ids = tuple(lx._id for lx in self._lexicons)
+    self._expanded = ()
+    if expand is None:
+        if self._default_mode:
+            expand = '*'                           # unrestricted: expand over all lexicons
+        else:
+            # restricted: exactly the declared dependencies that are installed; warn about missing ones
+            deps = [(id, ver, rowid) for lx in self._lexicons
+                    for id, ver, _, rowid in get_lexicon_dependencies(lx._id)]
+            missing = ' '.join(format_lexicon_specifier(id, ver) for id, ver, rowid in deps if rowid is None)
+            if missing:
+                warnings.warn('lexicon dependencies not available: ' + missing, wn.WnWarning, stacklevel=2)
+            expand = ' '.join(format_lexicon_specifier(id, ver) for id, ver, rowid in deps if rowid is not None)
+    if expand:                                      # expand='' disables expansion
+        self._expanded = tuple(_to_lexicon(row) for row in find_lexicons(lexicon=expand))
+    self._expanded_ids = tuple(lx._id for lx in self._expanded)
+    self._normalizer = normalizer
+    self.lemmatizer = lemmatizer
+    self._search_all_forms = search_all_forms
